@@ -103,6 +103,9 @@ class Translator:
         self.spec = spec
         self.types = types          # type name -> {"attrs": {attr: (coq fn, type)}, "contains_int": fn, "len": fn, "eqb": fn}
         self.mode = spec.get("mode", "plain")
+        self.monadic = self.mode == "resm"     # "resm": like "res", plus calls that may raise (bound with match) and
+        if self.monadic:                       # if-joins through `res` (an arm may end in Err)
+            self.mode = "res"
         self.assume = spec.get("assume", {})
         self.positive = set(spec.get("positive", ()))
         self.calls = spec.get("calls", {})
@@ -331,6 +334,8 @@ class Translator:
             key = f"{base.typ}.{node.func.attr}"
         if key in self.calls:
             target = self.calls[key]
+            if target.get("res") and not getattr(self, "_res_call_ok", False):
+                pass        # checked by the caller: only `name = call(...)` statements reach here in mode resm
             args = []
             if isinstance(node.func, ast.Attribute):
                 args.append(self.expr(node.func.value, env))
@@ -457,6 +462,9 @@ class Translator:
                     for n in (tgt.elts if isinstance(tgt, ast.Tuple) else [tgt]):
                         if isinstance(n, ast.Name) and n.id not in names:
                             names.append(n.id)
+            elif self.append_target(stmt):
+                if self.append_target(stmt) not in names:
+                    names.append(self.append_target(stmt))
             elif isinstance(stmt, ast.AugAssign) and isinstance(stmt.target, ast.Name):
                 if stmt.target.id not in names:
                     names.append(stmt.target.id)
@@ -469,6 +477,23 @@ class Translator:
                     if n not in names:
                         names.append(n)
         return names
+
+    @staticmethod
+    def append_target(stmt):
+        """ `name.append(x)` as a statement -> name """
+        if isinstance(stmt, ast.Expr) and isinstance(stmt.value, ast.Call) and isinstance(stmt.value.func, ast.Attribute) \
+                and stmt.value.func.attr == "append" and isinstance(stmt.value.func.value, ast.Name) \
+                and len(stmt.value.args) == 1 and not stmt.value.keywords:
+            return stmt.value.func.value.id
+        return None
+
+    def res_call(self, node):
+        """ the mapped call target when `node` is a call of a function declared as raising (`"res": True`) """
+        if not isinstance(node, ast.Call):
+            return None
+        key = node.func.id if isinstance(node.func, ast.Name) else None
+        target = self.calls.get(key)
+        return target if target and target.get("res") else None
 
     def terminates(self, stmts):
         if not stmts:
@@ -560,11 +585,28 @@ class Translator:
                 raise KernelError(f"assert {text} is not listed in drop_asserts")
             self.used_drop.add(text)
             return self.block(rest, env, tail)
+        if self.append_target(stmt):
+            name = self.append_target(stmt)
+            if name not in env or isinstance(env[name], F) or not env[name].typ.startswith("list "):
+                raise KernelError(f"append to {name}, which is not a list local")
+            item = self.expr(stmt.value.args[0], env)
+            if isinstance(item, F) or item.typ != env[name].typ[5:]:
+                raise KernelError(f"append of {getattr(item, 'typ', 'Q')} to {env[name].typ}")
+            text, env2 = self.bind(name, E(f"{par(env[name].text)} ++ [{item.text}]", env[name].typ), env)
+            return text + self.block(rest, env2, tail)
         if isinstance(stmt, (ast.Assign, ast.AnnAssign)):
             targets = stmt.targets if isinstance(stmt, ast.Assign) else [stmt.target]
             if len(targets) != 1 or stmt.value is None:
                 raise KernelError("chained assignment")
             tgt = targets[0]
+            if self.res_call(stmt.value) and isinstance(tgt, ast.Name):
+                if not self.monadic:
+                    raise KernelError("call of a raising function outside mode resm")
+                value = self.expr(stmt.value, env)       # typ = the type of the value inside Ok
+                env2 = dict(env)
+                env2[tgt.id] = E(self.var(tgt.id), value.typ)
+                return (f"match {value.text} with\n| Err k__ => Err k__\n| Ok {self.var(tgt.id)} =>\n"
+                        f"{self.block(rest, env2, tail)}\nend")
             if isinstance(tgt, ast.Name):
                 text, env2 = self.bind(tgt.id, self.expr(stmt.value, env), env)
                 return text + self.block(rest, env2, tail)
@@ -647,6 +689,13 @@ class Translator:
                         items += [x.num, x.den] if isinstance(x, F) else [x.text]
                     return "(" + ", ".join(items) + ")" if len(items) != 1 else items[0]
                 return inner
+            if self.monadic:
+                ok = pack_tail()
+                a = self.block(stmt.body, env, lambda e: "Ok " + par(ok(e)))
+                b = self.block(stmt.orelse, env, lambda e: "Ok " + par(ok(e)))
+                pattern, env2 = self.unpack(names, shapes, env)
+                return (f"match (if {test} then\n{a}\n  else\n{b}) with\n| Err k__ => Err k__\n| Ok {pattern.lstrip(chr(39))} =>\n"
+                        f"{self.block(rest, env2, tail)}\nend")
             a = self.block(stmt.body, env, pack_tail())
             b = self.block(stmt.orelse, env, pack_tail())
             pattern, env2 = self.unpack(names, shapes, env)
